@@ -3,7 +3,17 @@
    (src/dataset_processor.py).  The model follows the code as it is: index lists in list order, `min`/strict `<`
    scans that return the FIRST optimum, duplicate removal by the nested loop with its `discarded` set, re-typing of the
    kept records, `multimapper := True`.  Strings (read ids, chromosome names, isoform and gene ids) are injectively
-   numbered by the harness; penalties are integers (the harness uses exactly representable floats).
+   numbered by the harness - chromosome names and isoform ids ORDER-PRESERVINGLY (Z order = Python string order), because
+   the repaired select_noninformative compares them; penalties are integers (the harness uses exactly representable floats).
+
+   Two variants of select_noninformative are described.  Everything that depends on the tie-break key lives in
+   `Module Gen`, inside a section over `tk : rec -> list Z` (the key as the list of its components; Python compares the
+   tuples lexicographically, `zlist_ltb` below):
+     repaired code    (fixes/C08_noninformative_tie_break.diff): tkey a = (genomic_region[0], chr_id, start, end, isoforms)
+                       -> `resolve`, `keep_idx`, `kept_keys`, `run_check`, ... (the unsuffixed names)
+     unrepaired code  : tkey_unrepaired a = genomic_region[0] alone
+                       -> `resolve_unrepaired`, `keep_idx_unrepaired`, ... ; `scan_best_unrepaired` / `pick_noninformative_unrepaired`
+                          are the literal transcription (Z compared with `<` against math.inf), proved equal to the instance.
    Key-set level prototype: Multimap.v.  Weights / contribution: MultimapWeight.v. *)
 From Coq Require Import ZArith NArith List Bool Lia ZifyBool Permutation.
 From IQ Require Import CorrSupport.
@@ -120,23 +130,60 @@ Definition select_best_inconsistent (l:list rec) (idx:list nat) : list rec :=
 Definition intersection_len (r1 r2:Z*Z) : Z := Z.max 0 (Z.min (snd r1) (snd r2) - Z.max (fst r1) (fst r2) + 1).
 Definition ovl (a:rec) : Z := intersection_len (reg a) (st a, en a).
 Definition rstart (a:rec) : Z := fst (reg a).
-(* second pass: strict `<` against math.inf / the current minimum; the first best triple wins *)
-Fixpoint scan_best (maxo:Z) (infos:list (Z*Z*nat)) (minrs:option Z) (best:option nat) : option nat :=
+
+(* ---------- lexicographic order on lists of integers (Python's order on tuples / lists) ---------- *)
+Fixpoint zlist_ltb (x y:list Z) : bool :=
+  match x, y with
+  | _, [] => false
+  | [], _ :: _ => true
+  | a :: s, b :: t => (a <? b) || ((a =? b) && zlist_ltb s t)
+  end.
+Definition zlist_le (x y:list Z) : Prop := zlist_ltb y x = false.
+Lemma zlist_ltb_irrefl x : zlist_ltb x x = false.
+Proof. induction x as [|a s IH]; cbn; [reflexivity|]. rewrite Z.ltb_irrefl, Z.eqb_refl, IH. reflexivity. Qed.
+Lemma zlist_ltb_trans x : forall y z, zlist_ltb x y = true -> zlist_ltb y z = true -> zlist_ltb x z = true.
+Proof. induction x as [|a s IH]; intros [|b t] [|c u]; cbn [zlist_ltb]; try discriminate; try reflexivity.
+  intros H1 H2. apply orb_true_iff in H1, H2. apply orb_true_iff.
+  destruct H1 as [H1|H1], H2 as [H2|H2]; rewrite ?andb_true_iff, ?Z.ltb_lt, ?Z.eqb_eq in *.
+  - left. lia.
+  - left. destruct H2. lia.
+  - left. destruct H1. lia.
+  - right. destruct H1 as [E1 K1], H2 as [E2 K2]. split; [lia|]. eapply IH; eauto. Qed.
+Lemma zlist_ltb_total x : forall y, zlist_ltb x y = false -> zlist_ltb y x = false -> x = y.
+Proof. induction x as [|a s IH]; intros [|b t]; cbn [zlist_ltb]; try discriminate; [reflexivity|].
+  intros H1 H2. apply orb_false_iff in H1, H2. destruct H1 as [A1 B1], H2 as [A2 B2]. apply Z.ltb_ge in A1, A2.
+  assert (a = b) by lia. subst b. rewrite Z.eqb_refl in B1, B2. cbn [andb] in B1, B2. f_equal. apply IH; assumption. Qed.
+Lemma zlist_ltb_single x y : zlist_ltb [x] [y] = (x <? y).
+Proof. cbn. rewrite andb_false_r, orb_false_r. reflexivity. Qed.
+Lemma zlist_le_refl x : zlist_le x x. Proof. apply zlist_ltb_irrefl. Qed.
+Lemma zlist_lt_le x y : zlist_ltb x y = true -> zlist_le x y.
+Proof. intros H. unfold zlist_le. destruct (zlist_ltb y x) eqn:E; [|reflexivity].
+  pose proof (zlist_ltb_trans x y x H E) as T. rewrite zlist_ltb_irrefl in T. discriminate. Qed.
+Lemma zlist_le_trans x y z : zlist_le x y -> zlist_le y z -> zlist_le x z.
+Proof. unfold zlist_le. intros H1 H2. destruct (zlist_ltb z x) eqn:E; [|reflexivity].
+  destruct (zlist_ltb x y) eqn:F.
+  - rewrite (zlist_ltb_trans z x y E F) in H2. discriminate.
+  - assert (x = y) by (apply zlist_ltb_total; assumption). subst y. congruence. Qed.
+Lemma zlist_le_antisym x y : zlist_le x y -> zlist_le y x -> x = y.
+Proof. unfold zlist_le. intros H1 H2. apply zlist_ltb_total; assumption. Qed.
+
+(* ---------- select_noninformative: the two scans over triplets (overlap, tie-break key, index) ---------- *)
+(* second pass: strict `<` against the current minimum (None at the start); the first best triplet wins *)
+Fixpoint scan_best (maxo:Z) (infos:list (Z * list Z * nat)) (mink:option (list Z)) (best:option nat) : option nat :=
+  match infos with
+  | [] => best
+  | (o, k, i) :: t =>
+      if (o =? maxo) && (match mink with None => true | Some m => zlist_ltb k m end)
+      then scan_best maxo t (Some k) (Some i) else scan_best maxo t mink best
+  end.
+Definition max_overlap (infos:list (Z * list Z * nat)) : Z := fold_left (fun m t => Z.max (fst (fst t)) m) infos 0.
+(* the literal transcription of the UNREPAIRED second pass: triplets (overlap, genomic_region[0], index), `<` against math.inf *)
+Fixpoint scan_best_unrepaired (maxo:Z) (infos:list (Z*Z*nat)) (minrs:option Z) (best:option nat) : option nat :=
   match infos with
   | [] => best
   | (o, r, i) :: t =>
       if (o =? maxo) && (match minrs with None => true | Some m => r <? m end)
-      then scan_best maxo t (Some r) (Some i) else scan_best maxo t minrs best
-  end.
-Definition noninformative_infos (l:list rec) (idx:list nat) : list (Z*Z*nat) :=
-  map (fun i => (ovl (nthr l i), rstart (nthr l i), i)) idx.
-Definition max_overlap (infos:list (Z*Z*nat)) : Z := fold_left (fun m t => Z.max (fst (fst t)) m) infos 0.
-Definition pick_noninformative (l:list rec) (idx:list nat) : option nat :=
-  let infos := noninformative_infos l idx in scan_best (max_overlap infos) infos None None.
-Definition select_noninformative (l:list rec) (idx:list nat) : outcome (list rec) :=
-  match pick_noninformative l idx with
-  | None => Raises 2                                 (* assert best_assignment != -1 *)
-  | Some b => Ok (filter_assignments l [b])
+      then scan_best_unrepaired maxo t (Some r) (Some i) else scan_best_unrepaired maxo t minrs best
   end.
 
 (* ---------- select_best_assignment ---------- *)
@@ -148,30 +195,8 @@ Definition p_pu (a:rec) := p_cons a && negb (mm a) && negb (atype_eqb (ty a) Amb
 Definition p_non (a:rec) := negb (is_inconsistent (ty a)) && negb (is_consistent (ty a)).
 
 Definition nonempty {A} (l:list A) : bool := match l with [] => false | _ => true end.
-Definition select_best_assignment (l:list rec) : outcome (list rec) :=
-  let primary_unique := idx_where p_pu l in
-  let consistent := idx_where p_cons l in
-  let inconsistent := idx_where p_inc l in
-  let primary_inconsistent := idx_where p_pi l in
-  let noninformative := idx_where p_non l in
-  if nonempty primary_unique then Ok (filter_assignments l primary_unique)
-  else if nonempty consistent then Ok (filter_assignments l consistent)
-  else if nonempty primary_inconsistent then Ok (select_best_inconsistent l primary_inconsistent)
-  else if nonempty inconsistent then Ok (select_best_inconsistent l inconsistent)
-  else if nonempty noninformative then select_noninformative l noninformative
-  else Ok (firstn 1 l).
 
-(* ---------- resolve ---------- *)
 Inductive strategy := IgnoreMultimapper | Merge | TakeBest.
-Definition resolve (s:strategy) (l:list rec) : outcome (list rec) :=
-  if (length l <=? 1)%nat then Ok l else
-  match s with
-  | IgnoreMultimapper => Ok (map (fun a => set_verdict a Suspended (gty a) (mm a)) l)
-  | Merge =>   (* passes a Python set to find_duplicates, which indexes it: TypeError as soon as it has two elements *)
-      let informative := idx_where (fun a => negb (atype_eqb (ty a) Noninformative)) l in
-      if (length informative <=? 1)%nat then Ok (filter_assignments l informative) else Raises 3
-  | TakeBest => select_best_assignment l
-  end.
 
 (* ---------- the loader: ReadAssignmentLoader.get_next ---------- *)
 (* entry = multimapped_chr_dict.get(read_id): the resolved records of this read written for this chromosome *)
@@ -190,24 +215,12 @@ Definition apply_verdict (entry:option (list rec)) (r:rec) : option rec :=
    files: (chromosome of the save file, its records in file order), in the order of chr_ids. *)
 Definition group_of (all:list rec) (rid:Z) : list rec := filter (fun r => rd r =? rid) all.
 Definition nonempty_opt (l:list rec) : option (list rec) := match l with [] => None | _ => Some l end.
-Definition load_record (s:strategy) (all:list rec) (c:Z) (r:rec) : outcome (list rec) :=
-  let g := group_of all (rd r) in
-  if (1 <? length g)%nat then
-    match resolve s g with
-    | Ok res => Ok (match apply_verdict (nonempty_opt (filter (fun a => chr a =? c) res)) r with Some r' => [r'] | None => [] end)
-    | Raises k => Raises k
-    end
-  else Ok [r].
 Fixpoint collect_ok {A} (l:list (outcome (list A))) : outcome (list A) :=
   match l with
   | [] => Ok []
   | Raises k :: _ => Raises k
   | Ok x :: t => match collect_ok t with Ok y => Ok (x ++ y) | Raises k => Raises k end
   end.
-Definition load_all (s:strategy) (files:list (Z * list rec)) : outcome (list (list rec)) :=
-  let all := flat_map snd files in
-  collect_ok (map (fun f => match collect_ok (map (load_record s all (fst f)) (snd f)) with
-                            | Ok x => Ok [x] | Raises k => Raises k end) files).
 
 (* the two ways the per-read lists are built: default (prepare_multimapper_dict skips reads counted once),
    --high_memory (every read is in the dictionary, lists of length <= 1 are not resolved) *)
@@ -220,23 +233,10 @@ Proof. unfold default_group, highmem_group, to_resolve. destruct (length (group_
   - apply Nat.eqb_eq in E. rewrite E. reflexivity.
   - reflexivity. Qed.
 
-(* ================================================================================================================
-   Declarative description of the verdict, and the decidable specification the correspondence evaluates on the
-   implementation's output.
-   ================================================================================================================ *)
+(* ---------- declarative description: what does not depend on the tie-break key ---------- *)
 (* lowest penalty within class p *)
 Definition best_pen (p:rec -> bool) (l:list rec) (r:rec) : bool :=
   p r && forallb (fun x => negb (p x) || (pen r <=? pen x)) l.
-(* best overlap with the gene region, then lowest region start *)
-Definition best_non (l:list rec) (r:rec) : bool :=
-  p_non r && forallb (fun x => negb (p_non x) || (ovl x <? ovl r) || ((ovl x =? ovl r) && (rstart r <=? rstart x))) l.
-(* the priority classes: primary unique > consistent > primary inconsistent > inconsistent > uninformative *)
-Definition winner (l:list rec) (r:rec) : bool :=
-  if existsb p_pu l then p_pu r
-  else if existsb p_cons l then p_cons r
-  else if existsb p_pi l then best_pen p_pi l r
-  else if existsb p_inc l then best_pen p_inc l r
-  else best_non l r.
 Definition only_uninformative (l:list rec) : bool := negb (existsb p_cons l) && negb (existsb p_inc l).
 
 Notation verdict := (atype * atype * bool)%type.
@@ -251,57 +251,22 @@ Definition kept_of (l:list rec) (out:list verdict) : list nat := filter (fun i =
 (* precondition of the specification: a real multi-mapper list whose records are not suspended already *)
 Definition spec_pre (l:list rec) : bool := (1 <? length l)%nat && forallb (fun a => negb (is_suspended (ty a))) l.
 
-Definition spec_ok (l:list rec) (out:list verdict) : bool :=
-  let idxs := seq 0 (length l) in
-  let kept := kept_of l out in
-  let ct := (1 <? distinct_count (flat_map (fun i => isos (nthr l i)) kept))%nat in
-  let cg := (1 <? distinct_count (flat_map (fun i => gns (nthr l i)) kept))%nat in
-  (length out =? length l)%nat
-  (* losers are suspended (both types), nothing else changes on them *)
-  && forallb (fun i => visible (nth i out dv) || verdict_eqb (nth i out dv) (Suspended, Suspended, mm (nthr l i))) idxs
-  (* only members of the best class are kept *)
-  && forallb (fun i => winner l (nthr l i)) kept
-  (* two records with the same key never both survive *)
-  && forallb (fun i => forallb (fun j => (i =? j)%nat || negb (rec_eq (nthr l i) (nthr l j))) kept) kept
-  (* ties: every member of the best class is kept (up to duplicates); of uninformative records exactly one *)
-  && (if only_uninformative l then (length kept =? 1)%nat
-      else forallb (fun i => negb (winner l (nthr l i)) || existsb (fun j => rec_eq (nthr l i) (nthr l j)) kept) idxs)
-  (* kept on several isoforms / genes: re-typed ambiguous and flagged; otherwise unchanged *)
-  && forallb (fun i => let a := nthr l i in
-                verdict_eqb (nth i out dv) (if ct then ambiguity_type (ty a) else ty a,
-                                            if cg then ambiguity_type (ty a) else gty a, mm a || ct || cg)) kept.
-
-(* the hypothesis of order independence: uninformative records that tie on (overlap, region start) share their key *)
-Definition no_tie_b (l:list rec) : bool :=
-  forallb (fun a => forallb (fun b => negb (p_non a && p_non b && (ovl a =? ovl b) && (rstart a =? rstart b)) || rec_eq a b) l) l.
-
 (* ---------- support for the correspondence ---------- *)
-Definition model_out (s:strategy) (l:list rec) : outcome (list verdict) :=
-  match resolve s l with Ok r => Ok (verdicts r) | Raises k => Raises k end.
 Definition verdicts_eqb := outcome_eqb (list_eqb verdict_eqb).
 Definition permute (base:list rec) (p:list nat) : list rec := map (nthr base) p.
 Definition kept_recs (l:list rec) (out:list verdict) : list rec := map (nthr l) (kept_of l out).
 Definition subset_keys (x y:list rec) : bool := forallb (fun a => existsb (rec_eq a) y) x.
 Definition same_keys (x y:list rec) : bool := subset_keys x y && subset_keys y x.
-(* one multiset of records under several orders: (base, [(order, implementation verdicts)]) *)
-Definition run_check (s:strategy) (c:list rec * list (list nat * outcome (list verdict))) : bool :=
-  forallb (fun r => verdicts_eqb (model_out s (permute (fst c) (fst r))) (snd r)) (snd c).
-Definition run_spec (c:list rec * list (list nat * outcome (list verdict))) : bool :=
-  let base := fst c in
-  forallb (fun r => match snd r with
-                    | Ok out => if spec_pre base then spec_ok (permute base (fst r)) out
-                                else if (length base <=? 1)%nat then list_eqb verdict_eqb out (verdicts (permute base (fst r))) else true
-                    | Raises _ => false end) (snd c)
-  && (negb (spec_pre base && no_tie_b base) ||
-      match snd c with
-      | (p0, Ok out0) :: rest =>
-          forallb (fun r => match snd r with
-                            | Ok out => same_keys (kept_recs (permute base p0) out0) (kept_recs (permute base (fst r)) out)
-                            | Raises _ => false end) rest
-      | _ => true end).
+Notation loaded := (list (Z * verdict))%type.        (* per chromosome: (assignment_id, verdict) of the records the loader returns *)
+Definition loaded_of (rs:list rec) : loaded := map (fun a => (aid a, verdict_of a)) rs.
+Definition loaded_eqb (x y:list loaded) : bool := list_eqb (list_eqb (pair_eqb Z.eqb verdict_eqb)) x y.
+(* the verdict as observed behind the loader: a record that is not returned counts as suspended *)
+Definition observed (files:list (Z * list rec)) (outp:list loaded) (r:rec) : verdict :=
+  let here := flat_map snd (filter (fun x => fst (fst x) =? chr r) (combine files outp)) in
+  match find (fun x => fst x =? aid r) here with Some x => snd x | None => (Suspended, Suspended, mm r) end.
 
 (* ================================================================================================================
-   Proofs
+   Proofs that do not depend on the tie-break key
    ================================================================================================================ *)
 (* ---------- index lists ---------- *)
 Lemma idx_where_In p l i : In i (idx_where p l) <-> (i < length l)%nat /\ p (nthr l i) = true.
@@ -483,7 +448,7 @@ Proof. destruct idx as [|i [|j t]]; cbn [length]; intros H; try lia; [reflexivit
 
 (* ---------- select_noninformative: the two scans ---------- *)
 Lemma intersection_len_nonneg a b : 0 <= intersection_len a b. Proof. unfold intersection_len. lia. Qed.
-Lemma max_overlap_spec (infos:list (Z*Z*nat)) : forall m0,
+Lemma max_overlap_spec (infos:list (Z * list Z * nat)) : forall m0,
   let m := fold_left (fun m t => Z.max (fst (fst t)) m) infos m0 in
   m0 <= m /\ (forall t, In t infos -> fst (fst t) <= m) /\ (m = m0 \/ exists t, In t infos /\ fst (fst t) = m).
 Proof. induction infos as [|x t IH]; intros m0; cbn [fold_left].
@@ -494,20 +459,21 @@ Proof. induction infos as [|x t IH]; intros m0; cbn [fold_left].
     + destruct C as [C|[y [H1 H2]]]; [|right; exists y; split; [right; exact H1|exact H2]].
       destruct (Z.max_spec (fst (fst x)) m0) as [[_ E]|[_ E]]; [left; lia|right; exists x; split; [left; reflexivity|lia]]. Qed.
 Lemma scan_best_some maxo : forall infos m i, exists r' i',
-  scan_best maxo infos (Some m) (Some i) = Some i' /\ r' <= m /\
-  (forall o r j, In (o, r, j) infos -> o = maxo -> r' <= r) /\ ((r', i') = (m, i) \/ In (maxo, r', i') infos).
+  scan_best maxo infos (Some m) (Some i) = Some i' /\ zlist_le r' m /\
+  (forall o r j, In (o, r, j) infos -> o = maxo -> zlist_le r' r) /\ ((r', i') = (m, i) \/ In (maxo, r', i') infos).
 Proof. induction infos as [|[[o r] j] t IH]; intros m i; cbn [scan_best].
-  - exists m, i. repeat split; [lia|intros ? ? ? []|left; reflexivity].
-  - destruct ((o =? maxo) && (r <? m)) eqn:E.
-    + apply andb_prop in E. destruct E as [E1 E2]. apply Z.eqb_eq in E1. apply Z.ltb_lt in E2. subst o.
-      destruct (IH r j) as [r' [i' [A [B [C D]]]]]. exists r', i'. repeat split; [exact A|lia| |].
+  - exists m, i. repeat split; [apply zlist_le_refl|intros ? ? ? []|left; reflexivity].
+  - destruct ((o =? maxo) && zlist_ltb r m) eqn:E.
+    + apply andb_prop in E. destruct E as [E1 E2]. apply Z.eqb_eq in E1. subst o.
+      destruct (IH r j) as [r' [i' [A [B [C D]]]]]. exists r', i'. repeat split; [exact A|eapply zlist_le_trans; [exact B|apply zlist_lt_le; exact E2]| |].
       * intros o r0 j0 [H|H] Ho; [injection H as _ <- _; exact B|eapply C; eauto].
       * destruct D as [D|D]; [injection D as -> ->; right; left; reflexivity|right; right; exact D].
     + destruct (IH m i) as [r' [i' [A [B [C D]]]]]. exists r', i'. repeat split; [exact A|exact B| |].
-      * intros o0 r0 j0 [H|H] Ho; [injection H as -> -> _; subst o0; rewrite Z.eqb_refl in E; cbn in E; apply Z.ltb_ge in E; lia|eapply C; eauto].
+      * intros o0 r0 j0 [H|H] Ho; [|eapply C; eauto]. injection H as -> -> _. subst o0. rewrite Z.eqb_refl in E. cbn [andb] in E.
+        eapply zlist_le_trans; [exact B|exact E].
       * destruct D as [D|D]; [left; exact D|right; right; exact D]. Qed.
 Lemma scan_best_none maxo : forall infos, (exists r j, In (maxo, r, j) infos) -> exists r' i',
-  scan_best maxo infos None None = Some i' /\ (forall o r j, In (o, r, j) infos -> o = maxo -> r' <= r) /\ In (maxo, r', i') infos.
+  scan_best maxo infos None None = Some i' /\ (forall o r j, In (o, r, j) infos -> o = maxo -> zlist_le r' r) /\ In (maxo, r', i') infos.
 Proof. induction infos as [|[[o r] j] t IH]; intros [r0 [j0 H0]]; [destruct H0|]. cbn [scan_best].
   destruct (o =? maxo) eqn:E; cbn [andb].
   - apply Z.eqb_eq in E. subst o. destruct (scan_best_some maxo t r j) as [r' [i' [A [B [C D]]]]]. exists r', i'. repeat split; [exact A| |].
@@ -516,38 +482,14 @@ Proof. induction infos as [|[[o r] j] t IH]; intros [r0 [j0 H0]]; [destruct H0|]
   - destruct H0 as [H0|H0]; [injection H0 as -> _ _; rewrite Z.eqb_refl in E; discriminate|].
     destruct (IH (ex_intro _ r0 (ex_intro _ j0 H0))) as [r' [i' [A [C D]]]]. exists r', i'. repeat split; [exact A| |right; exact D].
     intros o0 r1 j1 [H|H] Ho; [injection H as -> _ _; subst o0; rewrite Z.eqb_refl in E; discriminate|eapply C; eauto]. Qed.
-Definition beats_or_ties (l:list rec) (b j:nat) : Prop :=
-  ovl (nthr l j) < ovl (nthr l b) \/ (ovl (nthr l j) = ovl (nthr l b) /\ rstart (nthr l b) <= rstart (nthr l j)).
-Lemma pick_noninformative_spec l idx : idx <> [] ->
-  exists b, pick_noninformative l idx = Some b /\ In b idx /\ forall j, In j idx -> beats_or_ties l b j.
-Proof. intros NE. unfold pick_noninformative. set (infos := noninformative_infos l idx).
-  destruct (max_overlap_spec infos 0) as [A [B C]]. cbn zeta in *. fold (max_overlap infos) in A, B, C.
-  assert (Hin: forall o r j, In (o, r, j) infos <-> In j idx /\ o = ovl (nthr l j) /\ r = rstart (nthr l j)).
-  { intros o r j. unfold infos, noninformative_infos. rewrite in_map_iff. split.
-    - intros [k [E H]]. injection E as <- <- <-. auto.
-    - intros [H [-> ->]]. exists j. auto. }
-  assert (Hmax: exists r j, In (max_overlap infos, r, j) infos).
-  { destruct C as [C|[[[o r] j] [H1 H2]]].
-    - destruct idx as [|i t]; [congruence|]. exists (rstart (nthr l i)), i. apply Hin. split; [left; reflexivity|split; [|reflexivity]].
-      assert (ovl (nthr l i) <= max_overlap infos) by (apply (B (ovl (nthr l i), rstart (nthr l i), i)); apply Hin; split; [left; reflexivity|auto]).
-      pose proof (intersection_len_nonneg (reg (nthr l i)) (st (nthr l i), en (nthr l i))). unfold ovl in *. lia.
-    - cbn in H2. subst o. exists r, j. exact H1. }
-  destruct (scan_best_none (max_overlap infos) infos Hmax) as [r' [b [S1 [S2 S3]]]].
-  exists b. apply Hin in S3. destruct S3 as [Hb [Eo Er]]. split; [exact S1|]. split; [exact Hb|].
-  intros j Hj. unfold beats_or_ties.
-  assert (ovl (nthr l j) <= max_overlap infos) by (apply (B (ovl (nthr l j), rstart (nthr l j), j)); apply Hin; auto).
-  destruct (Z.eq_dec (ovl (nthr l j)) (max_overlap infos)) as [E|E]; [right|left; lia]. split; [lia|].
-  rewrite <- Er. apply (S2 (ovl (nthr l j)) (rstart (nthr l j)) j); [apply Hin; auto|exact E]. Qed.
-
-(* ---------- the verdict as an index list: what select_best_assignment hands to apply_keep ---------- *)
-Definition sel_idx (l:list rec) : list nat :=
-  if nonempty (idx_where p_pu l) then idx_where p_pu l
-  else if nonempty (idx_where p_cons l) then idx_where p_cons l
-  else if nonempty (idx_where p_pi l) then best_inconsistent_idx l (idx_where p_pi l)
-  else if nonempty (idx_where p_inc l) then best_inconsistent_idx l (idx_where p_inc l)
-  else match pick_noninformative l (idx_where p_non l) with Some b => [b] | None => [] end.
-(* the records that are retained *)
-Definition keep_idx (l:list rec) : list nat := find_duplicates l (sel_idx l).
+(* the literal unrepaired scan is the generic one on singleton keys *)
+Lemma scan_best_unrepaired_eq maxo : forall infos minrs best,
+  scan_best_unrepaired maxo infos minrs best =
+  scan_best maxo (map (fun t => (fst (fst t), [snd (fst t)], snd t)) infos) (option_map (fun m => [m]) minrs) best.
+Proof. induction infos as [|[[o r] j] t IH]; intros minrs best; [reflexivity|]. cbn [scan_best_unrepaired map scan_best fst snd].
+  assert (E: (match minrs with None => true | Some m => r <? m end) = (match option_map (fun m => [m]) minrs with None => true | Some m => zlist_ltb [r] m end)).
+  { destruct minrs as [m|]; cbn [option_map]; [rewrite zlist_ltb_single|]; reflexivity. }
+  rewrite <- E. destruct ((o =? maxo) && _); apply IH. Qed.
 
 Lemma class_total a : p_inc a || p_cons a || p_non a = true.
 Proof. unfold p_inc, p_cons, p_non. destruct (is_inconsistent (ty a)), (is_consistent (ty a)); reflexivity. Qed.
@@ -567,6 +509,212 @@ Proof. intros H. rewrite !existsb_exists. intros [x [H1 H2]]. exists x. auto. Qe
 Lemma select_best_inconsistent_eq l idx : select_best_inconsistent l idx = filter_assignments l (best_inconsistent_idx l idx).
 Proof. unfold select_best_inconsistent. destruct (length idx <=? 1)%nat eqn:E; [|reflexivity].
   apply Nat.leb_le in E. rewrite best_inconsistent_idx_short by exact E. reflexivity. Qed.
+
+Lemma existsb_perm {A} (p:A -> bool) l l' : Permutation l l' -> existsb p l = existsb p l'.
+Proof. induction 1; cbn; try congruence. destruct (p x), (p y); reflexivity. Qed.
+Lemma forallb_perm {A} (p:A -> bool) l l' : Permutation l l' -> forallb p l = forallb p l'.
+Proof. induction 1; cbn; try congruence. destruct (p x), (p y); reflexivity. Qed.
+
+(* ---------- the loader re-applies the verdict; suspended records are skipped ---------- *)
+Lemma find_verdict_spec vs r : forall acc,
+  let res := fold_left (fun acc a => if (aid a =? aid r) && (chr a =? chr r) then Some a else acc) vs acc in
+  (res = acc \/ exists a, res = Some a /\ In a vs /\ aid a = aid r /\ chr a = chr r) /\
+  ((exists a, In a vs /\ aid a = aid r /\ chr a = chr r) -> exists a, res = Some a /\ In a vs /\ aid a = aid r /\ chr a = chr r).
+Proof. induction vs as [|x t IH]; intros acc; cbn [fold_left].
+  - cbn. split; [left; reflexivity|intros [a [[] _]]].
+  - destruct ((aid x =? aid r) && (chr x =? chr r)) eqn:E.
+    + apply andb_prop in E. destruct E as [E1 E2]. apply Z.eqb_eq in E1, E2. destruct (IH (Some x)) as [[A|[a [A1 [A2 A3]]]] _]; cbn zeta in *.
+      * split; [right|intros _]; exists x; (split; [exact A|split; [left; reflexivity|auto]]).
+      * split; [right|intros _]; exists a; (split; [exact A1|split; [right; exact A2|exact A3]]).
+    + destruct (IH acc) as [A B]; cbn zeta in *. split.
+      * destruct A as [A|[a [A1 [A2 A3]]]]; [left; exact A|right; exists a; split; [exact A1|split; [right; exact A2|exact A3]]].
+      * intros [a [[<-|Ha] [H1 H2]]]; [rewrite H1, H2, !Z.eqb_refl in E; discriminate|].
+        destruct (B (ex_intro _ a (conj Ha (conj H1 H2)))) as [a' [A1 [A2 A3]]]. exists a'. split; [exact A1|split; [right; exact A2|exact A3]]. Qed.
+
+Lemma nth_map_key g j : nth j (map (fun r => (aid r, chr r)) g) (0, 0) = (aid (nthr g j), chr (nthr g j)).
+Proof. exact (map_nth (fun r => (aid r, chr r)) g dflt j). Qed.
+
+(* multi-mappers are ignored by model construction (IntronCollector.collect_introns, IntronGraph.construct, ...):
+   a read retained on records naming several isoforms or genes carries the flag on every one of them *)
+Definition used_for_graph (a:rec) (has_introns:bool) : bool := has_introns && negb (mm a).
+
+Lemma nth_verdicts out i : nth i (verdicts out) dv = verdict_of (nthr out i).
+Proof. exact (map_nth verdict_of out dflt i). Qed.
+Lemma distinct_count_ext (x y:list Z) : (forall a, In a x <-> In a y) -> distinct_count x = distinct_count y.
+Proof. intros H. unfold distinct_count. apply Permutation_length. apply NoDup_Permutation; try apply NoDup_nodup.
+  intros a. rewrite !nodup_In. apply H. Qed.
+Lemma verdict_eqb_refl v : verdict_eqb v v = true.
+Proof. destruct v as [[a b] c]. unfold verdict_eqb. cbn. rewrite !atype_eqb_refl. destruct c; reflexivity. Qed.
+Lemma ambiguity_not_suspended t : is_suspended (ambiguity_type t) = false.
+Proof. unfold ambiguity_type. destruct (is_inconsistent t); reflexivity. Qed.
+
+(* ================================================================================================================
+   Everything that depends on the tie-break key of select_noninformative
+   ================================================================================================================ *)
+Module Gen.
+Section TieKey.
+Variable tk : rec -> list Z.          (* the tie-break key of an alignment, as the list of its components *)
+
+(* ---------- select_noninformative ---------- *)
+Definition noninformative_infos (l:list rec) (idx:list nat) : list (Z * list Z * nat) :=
+  map (fun i => (ovl (nthr l i), tk (nthr l i), i)) idx.
+Definition pick_noninformative (l:list rec) (idx:list nat) : option nat :=
+  let infos := noninformative_infos l idx in scan_best (max_overlap infos) infos None None.
+Definition select_noninformative (l:list rec) (idx:list nat) : outcome (list rec) :=
+  match pick_noninformative l idx with
+  | None => Raises 2                                 (* assert best_assignment != -1 *)
+  | Some b => Ok (filter_assignments l [b])
+  end.
+
+(* ---------- select_best_assignment ---------- *)
+Definition select_best_assignment (l:list rec) : outcome (list rec) :=
+  let primary_unique := idx_where p_pu l in
+  let consistent := idx_where p_cons l in
+  let inconsistent := idx_where p_inc l in
+  let primary_inconsistent := idx_where p_pi l in
+  let noninformative := idx_where p_non l in
+  if nonempty primary_unique then Ok (filter_assignments l primary_unique)
+  else if nonempty consistent then Ok (filter_assignments l consistent)
+  else if nonempty primary_inconsistent then Ok (select_best_inconsistent l primary_inconsistent)
+  else if nonempty inconsistent then Ok (select_best_inconsistent l inconsistent)
+  else if nonempty noninformative then select_noninformative l noninformative
+  else Ok (firstn 1 l).
+
+(* ---------- resolve ---------- *)
+Definition resolve (s:strategy) (l:list rec) : outcome (list rec) :=
+  if (length l <=? 1)%nat then Ok l else
+  match s with
+  | IgnoreMultimapper => Ok (map (fun a => set_verdict a Suspended (gty a) (mm a)) l)
+  | Merge =>   (* passes a Python set to find_duplicates, which indexes it: TypeError as soon as it has two elements *)
+      let informative := idx_where (fun a => negb (atype_eqb (ty a) Noninformative)) l in
+      if (length informative <=? 1)%nat then Ok (filter_assignments l informative) else Raises 3
+  | TakeBest => select_best_assignment l
+  end.
+
+(* ---------- the loader: collect_reads -> resolve_multimappers -> construct_models_in_parallel ---------- *)
+Definition load_record (s:strategy) (all:list rec) (c:Z) (r:rec) : outcome (list rec) :=
+  let g := group_of all (rd r) in
+  if (1 <? length g)%nat then
+    match resolve s g with
+    | Ok res => Ok (match apply_verdict (nonempty_opt (filter (fun a => chr a =? c) res)) r with Some r' => [r'] | None => [] end)
+    | Raises k => Raises k
+    end
+  else Ok [r].
+Definition load_all (s:strategy) (files:list (Z * list rec)) : outcome (list (list rec)) :=
+  let all := flat_map snd files in
+  collect_ok (map (fun f => match collect_ok (map (load_record s all (fst f)) (snd f)) with
+                            | Ok x => Ok [x] | Raises k => Raises k end) files).
+
+(* ---------- declarative description of the verdict ---------- *)
+(* best overlap with the gene region, then lowest tie-break key *)
+Definition best_non (l:list rec) (r:rec) : bool :=
+  p_non r && forallb (fun x => negb (p_non x) || (ovl x <? ovl r) || ((ovl x =? ovl r) && negb (zlist_ltb (tk x) (tk r)))) l.
+(* the priority classes: primary unique > consistent > primary inconsistent > inconsistent > uninformative *)
+Definition winner (l:list rec) (r:rec) : bool :=
+  if existsb p_pu l then p_pu r
+  else if existsb p_cons l then p_cons r
+  else if existsb p_pi l then best_pen p_pi l r
+  else if existsb p_inc l then best_pen p_inc l r
+  else best_non l r.
+
+Definition spec_ok (l:list rec) (out:list verdict) : bool :=
+  let idxs := seq 0 (length l) in
+  let kept := kept_of l out in
+  let ct := (1 <? distinct_count (flat_map (fun i => isos (nthr l i)) kept))%nat in
+  let cg := (1 <? distinct_count (flat_map (fun i => gns (nthr l i)) kept))%nat in
+  (length out =? length l)%nat
+  (* losers are suspended (both types), nothing else changes on them *)
+  && forallb (fun i => visible (nth i out dv) || verdict_eqb (nth i out dv) (Suspended, Suspended, mm (nthr l i))) idxs
+  (* only members of the best class are kept *)
+  && forallb (fun i => winner l (nthr l i)) kept
+  (* two records with the same key never both survive *)
+  && forallb (fun i => forallb (fun j => (i =? j)%nat || negb (rec_eq (nthr l i) (nthr l j))) kept) kept
+  (* ties: every member of the best class is kept (up to duplicates); of uninformative records exactly one *)
+  && (if only_uninformative l then (length kept =? 1)%nat
+      else forallb (fun i => negb (winner l (nthr l i)) || existsb (fun j => rec_eq (nthr l i) (nthr l j)) kept) idxs)
+  (* kept on several isoforms / genes: re-typed ambiguous and flagged; otherwise unchanged *)
+  && forallb (fun i => let a := nthr l i in
+                verdict_eqb (nth i out dv) (if ct then ambiguity_type (ty a) else ty a,
+                                            if cg then ambiguity_type (ty a) else gty a, mm a || ct || cg)) kept.
+
+(* the hypothesis of order independence: uninformative records that tie on (overlap, tie-break key) share their __eq__ key *)
+Definition no_tie_b (l:list rec) : bool :=
+  forallb (fun a => forallb (fun b => negb (p_non a && p_non b && (ovl a =? ovl b) && zlist_eqb (tk a) (tk b)) || rec_eq a b) l) l.
+
+(* ---------- support for the correspondence ---------- *)
+Definition model_out (s:strategy) (l:list rec) : outcome (list verdict) :=
+  match resolve s l with Ok r => Ok (verdicts r) | Raises k => Raises k end.
+(* one multiset of records under several orders: (base, [(order, implementation verdicts)]) *)
+Definition run_check (s:strategy) (c:list rec * list (list nat * outcome (list verdict))) : bool :=
+  forallb (fun r => verdicts_eqb (model_out s (permute (fst c) (fst r))) (snd r)) (snd c).
+(* `guard`: when the retained key sets of all orders must agree *)
+Definition run_spec_with (guard:list rec -> bool) (c:list rec * list (list nat * outcome (list verdict))) : bool :=
+  let base := fst c in
+  forallb (fun r => match snd r with
+                    | Ok out => if spec_pre base then spec_ok (permute base (fst r)) out
+                                else if (length base <=? 1)%nat then list_eqb verdict_eqb out (verdicts (permute base (fst r))) else true
+                    | Raises _ => false end) (snd c)
+  && (negb (spec_pre base && guard base) ||
+      match snd c with
+      | (p0, Ok out0) :: rest =>
+          forallb (fun r => match snd r with
+                            | Ok out => same_keys (kept_recs (permute base p0) out0) (kept_recs (permute base (fst r)) out)
+                            | Raises _ => false end) rest
+      | _ => true end).
+Definition run_spec := run_spec_with no_tie_b.
+Definition model_load (s:strategy) (files:list (Z * list rec)) : outcome (list loaded) :=
+  match load_all s files with Ok x => Ok (map loaded_of x) | Raises k => Raises k end.
+(* case: (files, output of the default path, output of the --high_memory path, [(match penalties, BasicReadAssignment.penalty_score)]) *)
+Definition load_check (c:list (Z * list rec) * outcome (list loaded) * outcome (list loaded) * list (list Z * Z)) : bool :=
+  let '(files, o1, o2, pens) := c in
+  outcome_eqb loaded_eqb (model_load TakeBest files) o1 && outcome_eqb loaded_eqb (model_load TakeBest files) o2 &&
+  forallb (fun x => basic_penalty (fst x) =? snd x) pens.
+Definition load_spec_one (files:list (Z * list rec)) (outp:list loaded) : bool :=
+  let all := flat_map snd files in
+  (length outp =? length files)%nat &&
+  forallb (fun o => forallb (fun x => visible (snd x)) o) outp &&
+  forallb (fun r => let g := group_of all (rd r) in
+             if spec_pre g then spec_ok g (map (observed files outp) g)
+             else if (length g <=? 1)%nat then verdict_eqb (observed files outp r) (verdict_of r) else true) all.
+Definition load_spec (c:list (Z * list rec) * outcome (list loaded) * outcome (list loaded) * list (list Z * Z)) : bool :=
+  let '(files, o1, o2, pens) := c in
+  match o1, o2 with Ok a, Ok b => load_spec_one files a && load_spec_one files b | _, _ => false end.
+
+(* ================================================================================================================
+   Proofs
+   ================================================================================================================ *)
+Definition beats_or_ties (l:list rec) (b j:nat) : Prop :=
+  ovl (nthr l j) < ovl (nthr l b) \/ (ovl (nthr l j) = ovl (nthr l b) /\ zlist_le (tk (nthr l b)) (tk (nthr l j))).
+Lemma pick_noninformative_spec l idx : idx <> [] ->
+  exists b, pick_noninformative l idx = Some b /\ In b idx /\ forall j, In j idx -> beats_or_ties l b j.
+Proof. intros NE. unfold pick_noninformative. set (infos := noninformative_infos l idx).
+  destruct (max_overlap_spec infos 0) as [A [B C]]. cbn zeta in *. fold (max_overlap infos) in A, B, C.
+  assert (Hin: forall o r j, In (o, r, j) infos <-> In j idx /\ o = ovl (nthr l j) /\ r = tk (nthr l j)).
+  { intros o r j. unfold infos, noninformative_infos. rewrite in_map_iff. split.
+    - intros [k [E H]]. injection E as <- <- <-. auto.
+    - intros [H [-> ->]]. exists j. auto. }
+  assert (Hmax: exists r j, In (max_overlap infos, r, j) infos).
+  { destruct C as [C|[[[o r] j] [H1 H2]]].
+    - destruct idx as [|i t]; [congruence|]. exists (tk (nthr l i)), i. apply Hin. split; [left; reflexivity|split; [|reflexivity]].
+      assert (ovl (nthr l i) <= max_overlap infos) by (apply (B (ovl (nthr l i), tk (nthr l i), i)); apply Hin; split; [left; reflexivity|auto]).
+      pose proof (intersection_len_nonneg (reg (nthr l i)) (st (nthr l i), en (nthr l i))). unfold ovl in *. lia.
+    - cbn in H2. subst o. exists r, j. exact H1. }
+  destruct (scan_best_none (max_overlap infos) infos Hmax) as [r' [b [S1 [S2 S3]]]].
+  exists b. apply Hin in S3. destruct S3 as [Hb [Eo Er]]. split; [exact S1|]. split; [exact Hb|].
+  intros j Hj. unfold beats_or_ties.
+  assert (ovl (nthr l j) <= max_overlap infos) by (apply (B (ovl (nthr l j), tk (nthr l j), j)); apply Hin; auto).
+  destruct (Z.eq_dec (ovl (nthr l j)) (max_overlap infos)) as [E|E]; [right|left; lia]. split; [lia|].
+  rewrite <- Er. apply (S2 (ovl (nthr l j)) (tk (nthr l j)) j); [apply Hin; auto|exact E]. Qed.
+
+(* ---------- the verdict as an index list: what select_best_assignment hands to apply_keep ---------- *)
+Definition sel_idx (l:list rec) : list nat :=
+  if nonempty (idx_where p_pu l) then idx_where p_pu l
+  else if nonempty (idx_where p_cons l) then idx_where p_cons l
+  else if nonempty (idx_where p_pi l) then best_inconsistent_idx l (idx_where p_pi l)
+  else if nonempty (idx_where p_inc l) then best_inconsistent_idx l (idx_where p_inc l)
+  else match pick_noninformative l (idx_where p_non l) with Some b => [b] | None => [] end.
+(* the records that are retained *)
+Definition keep_idx (l:list rec) : list nat := find_duplicates l (sel_idx l).
 
 Theorem select_best_assignment_eq l : l <> [] -> select_best_assignment l = Ok (apply_keep l (keep_idx l)).
 Proof. intros NE. unfold select_best_assignment, keep_idx, sel_idx.
@@ -595,12 +743,13 @@ Proof. intros Hi. unfold best_pen. rewrite andb_true_iff, forallb_nthr. split.
     destruct (p (nthr l j)) eqn:E; [|reflexivity]. cbn. apply Z.leb_le. apply H2. apply idx_where_In. auto. Qed.
 Lemma best_non_nthr l b : (b < length l)%nat ->
   (best_non l (nthr l b) = true <-> In b (idx_where p_non l) /\ forall j, In j (idx_where p_non l) -> beats_or_ties l b j).
-Proof. intros Hb. unfold best_non, beats_or_ties. rewrite andb_true_iff, forallb_nthr. split.
+Proof. intros Hb. unfold best_non, beats_or_ties, zlist_le. rewrite andb_true_iff, forallb_nthr. split.
   - intros [H1 H2]. split; [apply idx_where_In; auto|]. intros j Hj. apply idx_where_In in Hj. destruct Hj as [Hj1 Hj2].
-    specialize (H2 j Hj1). rewrite Hj2 in H2. cbn in H2. lia.
+    specialize (H2 j Hj1). rewrite Hj2 in H2. cbn [negb orb] in H2. apply orb_true_iff in H2. destruct H2 as [H2|H2]; [left; lia|right].
+    apply andb_prop in H2. destruct H2 as [H3 H4]. apply negb_true_iff in H4. split; [lia|exact H4].
   - intros [H1 H2]. apply idx_where_In in H1. destruct H1 as [_ H1]. split; [exact H1|]. intros j Hj.
-    destruct (p_non (nthr l j)) eqn:E; [|reflexivity]. cbn. assert (In j (idx_where p_non l)) by (apply idx_where_In; auto).
-    specialize (H2 j H). lia. Qed.
+    destruct (p_non (nthr l j)) eqn:E; [|reflexivity]. cbn [negb orb]. assert (In j (idx_where p_non l)) by (apply idx_where_In; auto).
+    specialize (H2 j H). apply orb_true_iff. destruct H2 as [H2|[H2 H3]]; [left; lia|right]. rewrite H3. cbn [negb]. rewrite andb_true_r. lia. Qed.
 
 Lemma sel_idx_sound l i : In i (sel_idx l) -> (i < length l)%nat /\ winner l (nthr l i) = true.
 Proof. unfold sel_idx, winner. rewrite !nonempty_idx_where.
@@ -742,14 +891,10 @@ Theorem keep_idx_NoDup l : NoDup (keep_idx l). Proof. apply fd_NoDup, sel_idx_No
 
 (* ---------- order independence of the retained key set ---------- *)
 Definition kept_keys (l:list rec) : list (Z * Z * Z * Z * list Z) := map (fun i => key_of (nthr l i)) (keep_idx l).
-(* uninformative records that tie on (overlap with the gene region, region start) have the same key *)
+(* uninformative records that tie on (overlap with the gene region, tie-break key) have the same __eq__ key *)
 Definition no_tie (l:list rec) : Prop :=
-  forall a b, In a l -> In b l -> p_non a = true -> p_non b = true -> ovl a = ovl b -> rstart a = rstart b -> key_of a = key_of b.
+  forall a b, In a l -> In b l -> p_non a = true -> p_non b = true -> ovl a = ovl b -> tk a = tk b -> key_of a = key_of b.
 
-Lemma existsb_perm {A} (p:A -> bool) l l' : Permutation l l' -> existsb p l = existsb p l'.
-Proof. induction 1; cbn; try congruence. destruct (p x), (p y); reflexivity. Qed.
-Lemma forallb_perm {A} (p:A -> bool) l l' : Permutation l l' -> forallb p l = forallb p l'.
-Proof. induction 1; cbn; try congruence. destruct (p x), (p y); reflexivity. Qed.
 Lemma winner_perm l l' r : Permutation l l' -> winner l r = winner l' r.
 Proof. intros P. unfold winner, best_pen, best_non.
   rewrite (existsb_perm p_pu l l' P), (existsb_perm p_cons l l' P), (existsb_perm p_pi l l' P), (existsb_perm p_inc l l' P).
@@ -762,9 +907,11 @@ Lemma winner_uninformative l r : only_uninformative l = true -> winner l r = bes
 Proof. intros OU. unfold only_uninformative in OU. apply andb_prop in OU. destruct OU as [O1 O2]. apply negb_true_iff in O1, O2. unfold winner.
   destruct (existsb p_pu l) eqn:E1; [rewrite (existsb_impl _ _ _ pu_cons E1) in O1; discriminate|].
   destruct (existsb p_pi l) eqn:E3; [rewrite (existsb_impl _ _ _ pi_inc E3) in O2; discriminate|]. rewrite O1, O2. reflexivity. Qed.
-Lemma best_non_tie l a b : In a l -> In b l -> best_non l a = true -> best_non l b = true -> ovl a = ovl b /\ rstart a = rstart b.
+Lemma best_non_tie l a b : In a l -> In b l -> best_non l a = true -> best_non l b = true -> ovl a = ovl b /\ tk a = tk b.
 Proof. unfold best_non. intros Ha Hb H1 H2. apply andb_prop in H1, H2. destruct H1 as [Pa Fa], H2 as [Pb Fb].
-  rewrite forallb_forall in Fa, Fb. specialize (Fa b Hb). specialize (Fb a Ha). rewrite Pb in Fa. rewrite Pa in Fb. cbn in Fa, Fb. lia. Qed.
+  rewrite forallb_forall in Fa, Fb. specialize (Fa b Hb). specialize (Fb a Ha). rewrite Pb in Fa. rewrite Pa in Fb. cbn [negb orb] in Fa, Fb.
+  apply orb_true_iff in Fa, Fb. rewrite andb_true_iff, negb_true_iff in Fa, Fb.
+  destruct Fa as [Fa|[Fa Ka]], Fb as [Fb|[Fb Kb]]; try lia. split; [lia|]. apply zlist_ltb_total; assumption. Qed.
 
 Lemma kept_keys_perm_incl l l' : Permutation l l' -> no_tie l' -> forall k, In k (kept_keys l) -> In k (kept_keys l').
 Proof. intros P NT k Hk. unfold kept_keys in Hk. apply in_map_iff in Hk. destruct Hk as [i [<- Hi]].
@@ -788,33 +935,9 @@ Proof. intros P NT k. split.
 (* the decidable form of the hypothesis, as evaluated by the correspondence *)
 Lemma no_tie_b_sound l : no_tie_b l = true -> no_tie l.
 Proof. unfold no_tie_b. rewrite forallb_forall. intros H a b Ha Hb Pa Pb E1 E2. specialize (H a Ha). rewrite forallb_forall in H. specialize (H b Hb).
-  rewrite Pa, Pb in H. cbn in H. apply rec_eq_key. destruct (rec_eq a b); [reflexivity|]. lia. Qed.
-
-(* without the hypothesis: two uninformative alignments on different chromosomes that tie - the first in list order stays *)
-Definition tie1 := mkrec 1 1 1 100 200 (50, 300) false false Noninformative Noninformative 0 [] [].
-Definition tie2 := mkrec 2 1 2 100 200 (50, 300) false false Noninformative Noninformative 0 [] [].
-Example resolve_perm_invariant_refuted :
-  Permutation [tie1; tie2] [tie2; tie1] /\ kept_keys [tie1; tie2] = [key_of tie1] /\ kept_keys [tie2; tie1] = [key_of tie2] /\ key_of tie1 <> key_of tie2.
-Proof. split; [apply perm_swap|]. vm_compute. repeat split; discriminate. Qed.
+  rewrite Pa, Pb, E1, E2, Z.eqb_refl in H. rewrite (proj2 (zlist_eqb_eq _ _) eq_refl) in H. cbn in H. apply rec_eq_key. exact H. Qed.
 
 (* ---------- the loader re-applies the verdict; suspended records are skipped ---------- *)
-Lemma find_verdict_spec vs r : forall acc,
-  let res := fold_left (fun acc a => if (aid a =? aid r) && (chr a =? chr r) then Some a else acc) vs acc in
-  (res = acc \/ exists a, res = Some a /\ In a vs /\ aid a = aid r /\ chr a = chr r) /\
-  ((exists a, In a vs /\ aid a = aid r /\ chr a = chr r) -> exists a, res = Some a /\ In a vs /\ aid a = aid r /\ chr a = chr r).
-Proof. induction vs as [|x t IH]; intros acc; cbn [fold_left].
-  - cbn. split; [left; reflexivity|intros [a [[] _]]].
-  - destruct ((aid x =? aid r) && (chr x =? chr r)) eqn:E.
-    + apply andb_prop in E. destruct E as [E1 E2]. apply Z.eqb_eq in E1, E2. destruct (IH (Some x)) as [[A|[a [A1 [A2 A3]]]] _]; cbn zeta in *.
-      * split; [right|intros _]; exists x; (split; [exact A|split; [left; reflexivity|auto]]).
-      * split; [right|intros _]; exists a; (split; [exact A1|split; [right; exact A2|exact A3]]).
-    + destruct (IH acc) as [A B]; cbn zeta in *. split.
-      * destruct A as [A|[a [A1 [A2 A3]]]]; [left; exact A|right; exists a; split; [exact A1|split; [right; exact A2|exact A3]]].
-      * intros [a [[<-|Ha] [H1 H2]]]; [rewrite H1, H2, !Z.eqb_refl in E; discriminate|].
-        destruct (B (ex_intro _ a (conj Ha (conj H1 H2)))) as [a' [A1 [A2 A3]]]. exists a'. split; [exact A1|split; [right; exact A2|exact A3]]. Qed.
-
-Lemma nth_map_key g j : nth j (map (fun r => (aid r, chr r)) g) (0, 0) = (aid (nthr g j), chr (nthr g j)).
-Proof. exact (map_nth (fun r => (aid r, chr r)) g dflt j). Qed.
 Theorem loader_applies_verdict g out i : (1 < length g)%nat -> resolve TakeBest g = Ok out ->
   NoDup (map (fun r => (aid r, chr r)) g) -> (i < length g)%nat ->
   apply_verdict (nonempty_opt (filter (fun a => chr a =? chr (nthr g i)) out)) (nthr g i) =
@@ -850,76 +973,14 @@ Corollary kept_loaded_with_verdict g out i : (1 < length g)%nat -> resolve TakeB
 Proof. intros L R ND Hk Hs. destruct (kept_are_winners g i Hk) as [Hi _]. rewrite (loader_applies_verdict g out i L R ND Hi).
   pose proof (kept_not_suspended g out i L R Hk Hs). destruct (ty (nthr out i)); try reflexivity. congruence. Qed.
 
-(* multi-mappers are ignored by model construction (IntronCollector.collect_introns, IntronGraph.construct, ...):
-   a read retained on records naming several isoforms or genes carries the flag on every one of them *)
-Definition used_for_graph (a:rec) (has_introns:bool) : bool := has_introns && negb (mm a).
 Corollary flagged_not_used_for_graph l out i h : (1 < length l)%nat -> resolve TakeBest l = Ok out -> In i (keep_idx l) ->
   change_t l (keep_idx l) || change_g l (keep_idx l) = true -> used_for_graph (nthr out i) h = false.
 Proof. intros L R Hk C. destruct (ties_flagged l out i L R Hk) as [A [B _]]. unfold used_for_graph.
   apply orb_true_iff in C. destruct C as [C|C]; [destruct (A C) as [_ ->]|destruct (B C) as [_ ->]]; apply andb_false_r. Qed.
 
-(* ---------- witnesses ---------- *)
-(* kept on two loci: both retained, re-typed ambiguous, flagged *)
-Definition locA := mkrec 1 1 1 100 200 (50, 300) false false Unique Unique 0 [1] [1].
-Definition locB := mkrec 2 1 2 100 200 (50, 300) true false Unique Unique 0 [2] [2].
-Definition locC := mkrec 3 1 2 900 990 (800, 1000) true false Inconsistent Inconsistent 0 [3] [3].
-Example ties_kept_and_flagged_example :
-  model_out TakeBest [locA; locB; locC] = Ok [(Unique, Unique, false); (Suspended, Suspended, true); (Suspended, Suspended, true)] /\
-  model_out TakeBest [locB; locB; locC; set_verdict locA Unique Unique true] =
-     Ok [(Ambiguous, Ambiguous, true); (Suspended, Suspended, true); (Suspended, Suspended, true); (Ambiguous, Ambiguous, true)].
-Proof. vm_compute. split; reflexivity. Qed.
-(* several retained records that name one and the same isoform are NOT flagged (and each of them counts, see MultimapWeight.v) *)
-Definition sameA := mkrec 4 1 1 100 260 (50, 300) true false Unique Unique 0 [1] [1].
-Example ties_flagged_refuted :
-  model_out TakeBest [set_verdict locA Unique Unique true; sameA] = Ok [(Unique, Unique, true); (Unique, Unique, true)].
-Proof. vm_compute. reflexivity. Qed.
-(* the merge strategy cannot run on two informative records, ignore_multimapper leaves the gene type *)
-Example other_strategies :
-  resolve Merge [locA; locB] = Raises 3 /\ model_out IgnoreMultimapper [locA; locB] = Ok [(Suspended, Unique, false); (Suspended, Unique, true)].
-Proof. vm_compute. split; reflexivity. Qed.
-(* both constructors fold min(., first match's penalty) from 0.0: a non-negative penalty is lost *)
-Example basic_penalty_examples : basic_penalty [] = 0 /\ basic_penalty [3; 1] = 0 /\ basic_penalty [-2; -5] = -2.
-Proof. vm_compute. repeat split; reflexivity. Qed.
-
-(* ---------- support for the file-level correspondence (save files -> resolve_multimappers -> loader) ---------- *)
-Notation loaded := (list (Z * verdict))%type.        (* per chromosome: (assignment_id, verdict) of the records the loader returns *)
-Definition loaded_of (rs:list rec) : loaded := map (fun a => (aid a, verdict_of a)) rs.
-Definition loaded_eqb (x y:list loaded) : bool := list_eqb (list_eqb (pair_eqb Z.eqb verdict_eqb)) x y.
-Definition model_load (s:strategy) (files:list (Z * list rec)) : outcome (list loaded) :=
-  match load_all s files with Ok x => Ok (map loaded_of x) | Raises k => Raises k end.
-(* case: (files, output of the default path, output of the --high_memory path, [(match penalties, BasicReadAssignment.penalty_score)]) *)
-Definition load_check (c:list (Z * list rec) * outcome (list loaded) * outcome (list loaded) * list (list Z * Z)) : bool :=
-  let '(files, o1, o2, pens) := c in
-  outcome_eqb loaded_eqb (model_load TakeBest files) o1 && outcome_eqb loaded_eqb (model_load TakeBest files) o2 &&
-  forallb (fun x => basic_penalty (fst x) =? snd x) pens.
-(* the verdict as observed behind the loader: a record that is not returned counts as suspended *)
-Definition observed (files:list (Z * list rec)) (outp:list loaded) (r:rec) : verdict :=
-  let here := flat_map snd (filter (fun x => fst (fst x) =? chr r) (combine files outp)) in
-  match find (fun x => fst x =? aid r) here with Some x => snd x | None => (Suspended, Suspended, mm r) end.
-Definition load_spec_one (files:list (Z * list rec)) (outp:list loaded) : bool :=
-  let all := flat_map snd files in
-  (length outp =? length files)%nat &&
-  forallb (fun o => forallb (fun x => visible (snd x)) o) outp &&
-  forallb (fun r => let g := group_of all (rd r) in
-             if spec_pre g then spec_ok g (map (observed files outp) g)
-             else if (length g <=? 1)%nat then verdict_eqb (observed files outp r) (verdict_of r) else true) all.
-Definition load_spec (c:list (Z * list rec) * outcome (list loaded) * outcome (list loaded) * list (list Z * Z)) : bool :=
-  let '(files, o1, o2, pens) := c in
-  match o1, o2 with Ok a, Ok b => load_spec_one files a && load_spec_one files b | _, _ => false end.
-
 (* ================================================================================================================
    The model satisfies the decidable specification that the correspondence evaluates on the implementation's output
    ================================================================================================================ *)
-Lemma nth_verdicts out i : nth i (verdicts out) dv = verdict_of (nthr out i).
-Proof. exact (map_nth verdict_of out dflt i). Qed.
-Lemma distinct_count_ext (x y:list Z) : (forall a, In a x <-> In a y) -> distinct_count x = distinct_count y.
-Proof. intros H. unfold distinct_count. apply Permutation_length. apply NoDup_Permutation; try apply NoDup_nodup.
-  intros a. rewrite !nodup_In. apply H. Qed.
-Lemma verdict_eqb_refl v : verdict_eqb v v = true.
-Proof. destruct v as [[a b] c]. unfold verdict_eqb. cbn. rewrite !atype_eqb_refl. destruct c; reflexivity. Qed.
-Lemma ambiguity_not_suspended t : is_suspended (ambiguity_type t) = false.
-Proof. unfold ambiguity_type. destruct (is_inconsistent t); reflexivity. Qed.
-
 Section ModelSpec.
 Variable l : list rec.
 Hypothesis Pre : spec_pre l = true.
@@ -966,3 +1027,171 @@ End ModelSpec.
 (* stated for resolve *)
 Theorem resolve_satisfies_spec l out : spec_pre l = true -> resolve TakeBest l = Ok out -> spec_ok l (verdicts out) = true.
 Proof. intros Pre R. rewrite (resolve_take_best_eq l (pre_len l Pre)) in R. injection R as <-. apply model_satisfies_spec. exact Pre. Qed.
+End TieKey.
+End Gen.
+
+(* ================================================================================================================
+   The two variants
+   ================================================================================================================ *)
+(* REPAIRED select_noninformative: tie_break_key = (genomic_region[0], chr_id, start, end, isoforms); Python compares the
+   tuples lexicographically (int, str, int, int, list of str) - here the list of the components, chromosome names and
+   isoform ids numbered order-preservingly by the harness *)
+Definition tkey (a:rec) : list Z := rstart a :: chr a :: st a :: en a :: isos a.
+(* UNREPAIRED: genomic_region[0] alone *)
+Definition tkey_unrepaired (a:rec) : list Z := [rstart a].
+
+Definition noninformative_infos := Gen.noninformative_infos tkey.
+Definition pick_noninformative := Gen.pick_noninformative tkey.
+Definition select_noninformative := Gen.select_noninformative tkey.
+Definition select_best_assignment := Gen.select_best_assignment tkey.
+Definition resolve := Gen.resolve tkey.
+Definition load_record := Gen.load_record tkey.
+Definition load_all := Gen.load_all tkey.
+Definition beats_or_ties := Gen.beats_or_ties tkey.
+Definition best_non := Gen.best_non tkey.
+Definition winner := Gen.winner tkey.
+Definition spec_ok := Gen.spec_ok tkey.
+Definition sel_idx := Gen.sel_idx tkey.
+Definition keep_idx := Gen.keep_idx tkey.
+Definition kept_keys := Gen.kept_keys tkey.
+Definition model_out := Gen.model_out tkey.
+Definition run_check := Gen.run_check tkey.
+Definition model_load := Gen.model_load tkey.
+Definition load_check := Gen.load_check tkey.
+Definition load_spec_one := Gen.load_spec_one tkey.
+Definition load_spec := Gen.load_spec tkey.
+
+Definition noninformative_infos_generic_unrepaired := Gen.noninformative_infos tkey_unrepaired.
+Definition select_noninformative_unrepaired := Gen.select_noninformative tkey_unrepaired.
+Definition select_best_assignment_unrepaired := Gen.select_best_assignment tkey_unrepaired.
+Definition resolve_unrepaired := Gen.resolve tkey_unrepaired.
+Definition load_record_unrepaired := Gen.load_record tkey_unrepaired.
+Definition load_all_unrepaired := Gen.load_all tkey_unrepaired.
+Definition winner_unrepaired := Gen.winner tkey_unrepaired.
+Definition spec_ok_unrepaired := Gen.spec_ok tkey_unrepaired.
+Definition sel_idx_unrepaired := Gen.sel_idx tkey_unrepaired.
+Definition keep_idx_unrepaired := Gen.keep_idx tkey_unrepaired.
+Definition kept_keys_unrepaired := Gen.kept_keys tkey_unrepaired.
+Definition model_out_unrepaired := Gen.model_out tkey_unrepaired.
+Definition run_check_unrepaired := Gen.run_check tkey_unrepaired.
+Definition run_spec_unrepaired := Gen.run_spec tkey_unrepaired.
+Definition model_load_unrepaired := Gen.model_load tkey_unrepaired.
+Definition load_check_unrepaired := Gen.load_check tkey_unrepaired.
+Definition load_spec_unrepaired := Gen.load_spec tkey_unrepaired.
+
+(* ---------- the unrepaired code, literally: triplets (overlap, genomic_region[0], index) ---------- *)
+Definition noninformative_infos_unrepaired (l:list rec) (idx:list nat) : list (Z*Z*nat) :=
+  map (fun i => (ovl (nthr l i), rstart (nthr l i), i)) idx.
+Definition max_overlap_unrepaired (infos:list (Z*Z*nat)) : Z := fold_left (fun m t => Z.max (fst (fst t)) m) infos 0.
+Definition pick_noninformative_unrepaired (l:list rec) (idx:list nat) : option nat :=
+  let infos := noninformative_infos_unrepaired l idx in scan_best_unrepaired (max_overlap_unrepaired infos) infos None None.
+Definition beats_or_ties_unrepaired (l:list rec) (b j:nat) : Prop :=
+  ovl (nthr l j) < ovl (nthr l b) \/ (ovl (nthr l j) = ovl (nthr l b) /\ rstart (nthr l b) <= rstart (nthr l j)).
+(* best overlap with the gene region, then lowest region start *)
+Definition best_non_unrepaired (l:list rec) (r:rec) : bool :=
+  p_non r && forallb (fun x => negb (p_non x) || (ovl x <? ovl r) || ((ovl x =? ovl r) && (rstart r <=? rstart x))) l.
+(* uninformative records that tie on (overlap with the gene region, region start) have the same key *)
+Definition no_tie_unrepaired (l:list rec) : Prop :=
+  forall a b, In a l -> In b l -> p_non a = true -> p_non b = true -> ovl a = ovl b -> rstart a = rstart b -> key_of a = key_of b.
+Definition no_tie_b_unrepaired (l:list rec) : bool :=
+  forallb (fun a => forallb (fun b => negb (p_non a && p_non b && (ovl a =? ovl b) && (rstart a =? rstart b)) || rec_eq a b) l) l.
+
+Lemma forallb_ext_all {A} (f g:A -> bool) l : (forall x, f x = g x) -> forallb f l = forallb g l.
+Proof. intros H. induction l as [|a t IH]; cbn; [reflexivity|]. rewrite H, IH. reflexivity. Qed.
+Lemma max_overlap_unrepaired_eq (infos:list (Z*Z*nat)) :
+  max_overlap_unrepaired infos = max_overlap (map (fun t => (fst (fst t), [snd (fst t)], snd t)) infos).
+Proof. unfold max_overlap_unrepaired, max_overlap. generalize 0. induction infos as [|x t IH]; intros m; [reflexivity|]. cbn [map fold_left fst]. apply IH. Qed.
+(* the literal transcription picks what the instance of the generic model picks *)
+Theorem pick_noninformative_unrepaired_eq l idx : pick_noninformative_unrepaired l idx = Gen.pick_noninformative tkey_unrepaired l idx.
+Proof. unfold pick_noninformative_unrepaired, Gen.pick_noninformative. cbn zeta. rewrite scan_best_unrepaired_eq, max_overlap_unrepaired_eq.
+  unfold noninformative_infos_unrepaired, Gen.noninformative_infos, tkey_unrepaired. rewrite map_map. reflexivity. Qed.
+Lemma best_non_unrepaired_eq l r : best_non_unrepaired l r = Gen.best_non tkey_unrepaired l r.
+Proof. unfold best_non_unrepaired, Gen.best_non, tkey_unrepaired. f_equal. apply forallb_ext_all. intros x.
+  rewrite zlist_ltb_single. f_equal. f_equal. destruct (rstart r <=? rstart x) eqn:E1, (rstart x <? rstart r) eqn:E2; try reflexivity; lia. Qed.
+Lemma beats_or_ties_unrepaired_iff l b j : beats_or_ties_unrepaired l b j <-> Gen.beats_or_ties tkey_unrepaired l b j.
+Proof. unfold beats_or_ties_unrepaired, Gen.beats_or_ties, zlist_le, tkey_unrepaired. rewrite zlist_ltb_single, Z.ltb_ge. reflexivity. Qed.
+Lemma no_tie_unrepaired_iff l : no_tie_unrepaired l <-> Gen.no_tie tkey_unrepaired l.
+Proof. unfold no_tie_unrepaired, Gen.no_tie, tkey_unrepaired. split; intros H a b Ha Hb Pa Pb E1 E2; apply H; auto; congruence. Qed.
+Lemma no_tie_b_unrepaired_eq l : no_tie_b_unrepaired l = Gen.no_tie_b tkey_unrepaired l.
+Proof. unfold no_tie_b_unrepaired, Gen.no_tie_b, tkey_unrepaired. apply forallb_ext_all. intros a. apply forallb_ext_all. intros b.
+  cbn [zlist_eqb]. rewrite andb_true_r. reflexivity. Qed.
+
+(* ---------- UNREPAIRED code: order independence only under the no-tie hypothesis ---------- *)
+Theorem resolve_perm_invariant_partial l l' : Permutation l l' -> no_tie_unrepaired l ->
+  forall k, In k (kept_keys_unrepaired l) <-> In k (kept_keys_unrepaired l').
+Proof. intros P NT. apply (Gen.resolve_perm_invariant_partial tkey_unrepaired l l' P). apply no_tie_unrepaired_iff. exact NT. Qed.
+Lemma no_tie_b_sound l : no_tie_b_unrepaired l = true -> no_tie_unrepaired l.
+Proof. rewrite no_tie_b_unrepaired_eq. intros H. apply no_tie_unrepaired_iff. apply Gen.no_tie_b_sound. exact H. Qed.
+Theorem uninformative_single_unrepaired l : l <> [] -> only_uninformative l = true ->
+  exists b, keep_idx_unrepaired l = [b] /\ (b < length l)%nat /\ best_non_unrepaired l (nthr l b) = true.
+Proof. intros NE OU. destruct (Gen.uninformative_single tkey_unrepaired l NE OU) as [b [H1 [H2 H3]]]. exists b. rewrite best_non_unrepaired_eq. auto. Qed.
+
+(* without the hypothesis: two uninformative alignments on different chromosomes that tie - the first in list order stays *)
+Definition tie1 := mkrec 1 1 1 100 200 (50, 300) false false Noninformative Noninformative 0 [] [].
+Definition tie2 := mkrec 2 1 2 100 200 (50, 300) false false Noninformative Noninformative 0 [] [].
+Example resolve_perm_invariant_refuted :
+  Permutation [tie1; tie2] [tie2; tie1] /\ kept_keys_unrepaired [tie1; tie2] = [key_of tie1] /\ kept_keys_unrepaired [tie2; tie1] = [key_of tie2] /\ key_of tie1 <> key_of tie2.
+Proof. split; [apply perm_swap|]. vm_compute. repeat split; discriminate. Qed.
+(* the repaired code keeps the alignment on the lower chromosome in both orders *)
+Example resolve_perm_invariant_witness : kept_keys [tie1; tie2] = [key_of tie1] /\ kept_keys [tie2; tie1] = [key_of tie1].
+Proof. vm_compute. split; reflexivity. Qed.
+
+(* ---------- REPAIRED code: order independence ---------- *)
+(* the resolver is handed the alignment records of ONE read (group_of below; dataset_processor builds the lists per read id) *)
+Definition one_read (l:list rec) : Prop := forall a b, In a l -> In b l -> rd a = rd b.
+Definition one_read_b (l:list rec) : bool := match l with [] => true | a :: t => forallb (fun b => rd a =? rd b) t end.
+Lemma one_read_b_sound l : one_read_b l = true -> one_read l.
+Proof. destruct l as [|x t]; [intros _ a b []|]. cbn [one_read_b]. rewrite forallb_forall. intros H.
+  assert (G: forall a, In a (x :: t) -> rd a = rd x).
+  { intros a [<-|Ha]; [reflexivity|]. specialize (H a Ha). apply Z.eqb_eq in H. congruence. }
+  intros a b Ha Hb. rewrite (G a Ha), (G b Hb). reflexivity. Qed.
+(* the tie-break key and the read id determine the __eq__ key *)
+Lemma tkey_key a b : rd a = rd b -> tkey a = tkey b -> key_of a = key_of b.
+Proof. unfold tkey, key_of. intros E H. injection H as _ H2 H3 H4 H5. congruence. Qed.
+Lemma one_read_no_tie l : one_read l -> Gen.no_tie tkey l.
+Proof. intros O a b Ha Hb _ _ _ E. apply tkey_key; [apply O; assumption|exact E]. Qed.
+Theorem resolve_perm_invariant l l' : Permutation l l' -> one_read l -> forall k, In k (kept_keys l) <-> In k (kept_keys l').
+Proof. intros P O. apply (Gen.resolve_perm_invariant_partial tkey l l' P). apply one_read_no_tie. exact O. Qed.
+
+(* ... and without any hypothesis for the lists the pipeline builds: the records of read `rid` among all records of all
+   chromosomes (`all` = the concatenation of the save files in the order of chr_ids, load_record) *)
+Lemma Permutation_filter_rec (f:rec -> bool) l l' : Permutation l l' -> Permutation (filter f l) (filter f l').
+Proof. induction 1 as [|x l l' _ IH|x y l|l l' l'' _ IH1 _ IH2]; cbn [filter].
+  - constructor.
+  - destruct (f x); [constructor|]; exact IH.
+  - destruct (f x), (f y); try apply Permutation_refl. apply perm_swap.
+  - eapply perm_trans; eauto. Qed.
+Lemma group_one_read all rid : one_read (group_of all rid).
+Proof. intros a b Ha Hb. unfold group_of in *. apply filter_In in Ha, Hb. destruct Ha as [_ Ha], Hb as [_ Hb]. apply Z.eqb_eq in Ha, Hb. congruence. Qed.
+Theorem resolve_perm_invariant_groups all all' rid : Permutation all all' ->
+  forall k, In k (kept_keys (group_of all rid)) <-> In k (kept_keys (group_of all' rid)).
+Proof. intros P. apply resolve_perm_invariant; [apply Permutation_filter_rec; exact P|apply group_one_read]. Qed.
+(* order of chromosomes / files: any rearrangement of the save files gives a permutation of `all` *)
+Corollary resolve_file_order_invariant (files files':list (Z * list rec)) rid : Permutation files files' ->
+  forall k, In k (kept_keys (group_of (flat_map snd files) rid)) <-> In k (kept_keys (group_of (flat_map snd files') rid)).
+Proof. intros P. apply resolve_perm_invariant_groups. apply Permutation_flat_map. exact P. Qed.
+(* the specification's guard for the repaired code: order independence is REQUIRED of every list of records of one read *)
+Definition run_spec := Gen.run_spec_with tkey one_read_b.
+
+(* ---------- witnesses ---------- *)
+(* kept on two loci: both retained, re-typed ambiguous, flagged *)
+Definition locA := mkrec 1 1 1 100 200 (50, 300) false false Unique Unique 0 [1] [1].
+Definition locB := mkrec 2 1 2 100 200 (50, 300) true false Unique Unique 0 [2] [2].
+Definition locC := mkrec 3 1 2 900 990 (800, 1000) true false Inconsistent Inconsistent 0 [3] [3].
+Example ties_kept_and_flagged_example :
+  model_out TakeBest [locA; locB; locC] = Ok [(Unique, Unique, false); (Suspended, Suspended, true); (Suspended, Suspended, true)] /\
+  model_out TakeBest [locB; locB; locC; set_verdict locA Unique Unique true] =
+     Ok [(Ambiguous, Ambiguous, true); (Suspended, Suspended, true); (Suspended, Suspended, true); (Ambiguous, Ambiguous, true)].
+Proof. vm_compute. split; reflexivity. Qed.
+(* several retained records that name one and the same isoform are NOT flagged (and each of them counts, see MultimapWeight.v) *)
+Definition sameA := mkrec 4 1 1 100 260 (50, 300) true false Unique Unique 0 [1] [1].
+Example ties_flagged_refuted :
+  model_out TakeBest [set_verdict locA Unique Unique true; sameA] = Ok [(Unique, Unique, true); (Unique, Unique, true)].
+Proof. vm_compute. reflexivity. Qed.
+(* the merge strategy cannot run on two informative records, ignore_multimapper leaves the gene type *)
+Example other_strategies :
+  resolve Merge [locA; locB] = Raises 3 /\ model_out IgnoreMultimapper [locA; locB] = Ok [(Suspended, Unique, false); (Suspended, Unique, true)].
+Proof. vm_compute. split; reflexivity. Qed.
+(* both constructors fold min(., first match's penalty) from 0.0: a non-negative penalty is lost *)
+Example basic_penalty_examples : basic_penalty [] = 0 /\ basic_penalty [3; 1] = 0 /\ basic_penalty [-2; -5] = -2.
+Proof. vm_compute. repeat split; reflexivity. Qed.
